@@ -1,4 +1,4 @@
 SPECIFICATION Spec
-CONSTANT OracleBound = 2000000000
+CONSTANT OracleBound = 70
 POSTCONDITION Accepted
 CHECK_DEADLOCK FALSE
